@@ -1,61 +1,87 @@
 ---------------------------- MODULE LinkedStruct ----------------------------
 (* C18 (1): a struct parameter and its member parameters agree member by     *)
-(* member after every operation (frappy/extparams.py StructParam).           *)
+(* member after every operation - also after every FAILING operation         *)
+(* (frappy/extparams.py StructParam).                                        *)
 (*                                                                           *)
-(* hw  : what the hardware holds, per member (above HwMax it clips and reports *)
-(*       the stored value, or refuses - see hwmode)                          *)
-(* mem : cached value of the member parameters                               *)
-(* str : cached value of the struct parameter, per member                    *)
+(* hw   : what the hardware holds, per member                                *)
+(* mem  : cached value of the member parameters                              *)
+(* str  : cached value of the struct parameter, per member                   *)
+(* merr : members whose parameter currently shows an error instead of a      *)
+(*        value,   serr : the struct parameter shows an error                *)
+(* ok   : the last operation was accepted                                    *)
 (* The update stream is not a separate variable: the property demands that   *)
 (* the view a subscribed client reconstructs equals the cache after every    *)
-(* operation, so the binding compares the client's view with mem / str.      *)
+(* operation, so the binding compares the client's view with mem / str and   *)
+(* the error flags.                                                          *)
 (*                                                                           *)
-(* The property only speaks about agreement.  Everything else is as loose as *)
-(* a driver with or without combined access methods needs it:                *)
-(*  - reading / writing ONE member may or may not refresh the other members  *)
-(*    from the hardware (a combined read method cannot do otherwise);        *)
-(*  - writing ONE member may write the cached values of the other members to *)
-(*    the hardware (a combined write method cannot do otherwise).            *)
+(* How an access can fail (the driver may raise anything):                   *)
+(*  hwmode "clip"   the hardware stores Min(v, HwMax), answers what it stored*)
+(*         "refuse" a value above HwMax makes the access method raise        *)
+(*  exc             what is raised: "badvalue" / "hardware" (SECoP errors)   *)
+(*                  or "other" (ValueError, OSError, ... from the driver)    *)
+(*  f               argument of every hardware operation: the member whose   *)
+(*                  access fails during this operation ("none": no fault);   *)
+(*                  a combined access method fails as a whole                *)
+(* A combined write method refuses / fails for the whole struct, member-wise *)
+(* methods may have reached other members before the failure (a partial      *)
+(* read or write).                                                           *)
+(*                                                                           *)
+(* The property only speaks about agreement: wherever struct and member both *)
+(* show a value, the values are equal (AgreeShown).  Everything else is as   *)
+(* loose as a driver with or without combined access methods needs it:       *)
+(*  - an operation on ONE member may or may not refresh the other members    *)
+(*    from the hardware, may or may not fail because of a fault elsewhere;   *)
+(*  - writing ONE member may write the cached values of the other members.   *)
 EXTENDS Naturals, FiniteSets, TLC
 
 CONSTANTS Members,    \* member names (strings)
           Vals,       \* values (small naturals) used by operations
           HwMax,      \* largest value the hardware can hold
-          HwModes     \* subset of {"clip", "refuse"}: what the hardware does with a value above HwMax
+          HwModes,    \* subset of {"clip", "refuse"}
+          Excs        \* subset of {"badvalue", "hardware", "other"}
 
-(* hwmode : "clip"   the hardware stores Min(v, HwMax) and answers with what it stored              *)
-(*          "refuse" the access method raises an error for that value and stores nothing of it;   *)
-(*                   a combined write method refuses the whole struct, member-wise write methods   *)
-(*                   may have written other members before the refusal (a partial write)           *)
-(* ok     : the last operation was accepted                                                        *)
-VARIABLES hwmode, hw, mem, str, ok
-svars == <<hwmode, hw, mem, str, ok>>
+VARIABLES hwmode, exc, hw, mem, str, merr, serr, ok
+svars == <<hwmode, exc, hw, mem, str, merr, serr, ok>>
 
 AllVals == Vals \cup {0}
 Fn == [Members -> AllVals]
 Const(v) == [m \in Members |-> v]
 Store(v) == IF v > HwMax THEN HwMax ELSE v
-
 Refused(v) == hwmode = "refuse" /\ v > HwMax
+Faults == Members \cup {"none"}
 
-SInit == /\ hwmode \in HwModes
+SInit == /\ hwmode \in HwModes /\ exc \in Excs
          /\ hw = Const(0) /\ ok = TRUE
          /\ mem = hw /\ str = hw      \* after the start-up poll the cache shows the hardware
+         /\ merr = {} /\ serr = FALSE
+
+(* ---- what the property demands of every operation ---- *)
+AgreeShown == \A k \in Members : (~serr /\ k \notin merr) => str[k] = mem[k]
+StrPost == /\ str' \in {s \in Fn : \A k \in Members : s[k] \in {str[k], mem'[k]}}
+           /\ AgreeShown'
+(* error flags after an operation that did not read with a failure: errors only disappear *)
+Shrink(cleared) == /\ merr' \in SUBSET (merr \ cleared)
+                   /\ serr' \in {FALSE, serr}
+AllClear == merr' = {} /\ serr' = FALSE
+AnyFlags == merr' \in SUBSET Members /\ serr' \in BOOLEAN
+Frame == UNCHANGED <<hwmode, exc>>
 
 (* other members k # m may keep their cached value or be refreshed *)
 Others(m, f, keep, fresh) ==
     \A k \in Members \ {m} : f[k] \in {keep[k], fresh[k]}
 
-WriteStruct(v) ==            \* v \in Fn: change <struct> / write_<struct>(v)
-    /\ IF \E m \in Members : Refused(v[m])
-       THEN \* refused; members that are not refused themselves may have reached the hardware,
-            \* the cache may show them - but struct and members still agree
-            /\ hw' \in {h \in Fn : \A m \in Members : IF Refused(v[m]) THEN h[m] = hw[m]
-                                                                      ELSE h[m] \in {hw[m], v[m]}}
-            /\ mem' \in {f \in Fn : \A m \in Members : f[m] \in {mem[m], hw'[m]}}
-            /\ str' = mem' /\ ok' = FALSE
-       ELSE hw' = [m \in Members |-> Store(v[m])] /\ mem' = hw' /\ str' = hw' /\ ok' = TRUE
-    /\ UNCHANGED hwmode
+(* ---- writes ---- *)
+WriteStructFails(v, f) == f # "none" \/ \E m \in Members : Refused(v[m])
+WriteStruct(v, f) ==         \* v \in Fn: change <struct> / write_<struct>(v)
+    /\ IF WriteStructFails(v, f)
+       THEN \* members that do not fail themselves may have reached the hardware and the cache
+            /\ hw' \in {h \in Fn : \A m \in Members : IF m = f \/ Refused(v[m]) THEN h[m] = hw[m]
+                                                                              ELSE h[m] \in {hw[m], Store(v[m])}}
+            /\ mem' \in {g \in Fn : \A m \in Members : g[m] \in {mem[m], hw'[m]}}
+            /\ Shrink({}) /\ StrPost /\ ok' = FALSE
+       ELSE /\ hw' = [m \in Members |-> Store(v[m])] /\ mem' = hw' /\ str' = hw'
+            /\ AllClear /\ ok' = TRUE
+    /\ Frame
 
 (* a combined write method sends the cached values of the other members along: one of *)
 (* them may be refused by the hardware, then nothing is written                        *)
@@ -64,50 +90,71 @@ HwAfterMemberWrite(m, v) ==
     {h \in Fn : /\ h[m] = Store(v)
                 /\ \A k \in Members \ {m} : (h[k] = hw[k]) \/ (~Refused(str[k]) /\ h[k] = Store(str[k]))}
 
-WriteMember(m, v) ==         \* change <member> / write_<member>(v)
-    /\ \/ /\ Refused(v) \/ CarriesRefused(m)
-          /\ UNCHANGED <<hw, mem, str>> /\ ok' = FALSE
-       \/ /\ ~Refused(v)
+WriteMember(m, v, f) ==      \* change <member> / write_<member>(v)
+    /\ \/ /\ Refused(v) \/ CarriesRefused(m) \/ f # "none"
+          /\ UNCHANGED <<hw, mem, str>> /\ Shrink({}) /\ AgreeShown' /\ ok' = FALSE
+       \/ /\ ~Refused(v) /\ f # m
           /\ hw' \in HwAfterMemberWrite(m, v)
-          /\ mem' \in {f \in Fn : f[m] = Store(v) /\ Others(m, f, mem, hw')}
-          /\ str' = mem' /\ ok' = TRUE
-    /\ UNCHANGED hwmode
+          /\ mem' \in {g \in Fn : g[m] = Store(v) /\ Others(m, g, mem, hw')}
+          /\ Shrink({m}) /\ StrPost /\ ok' = TRUE
+    /\ Frame
 
-ReadStruct ==                \* read <struct> / read_<struct>()
-    /\ mem' = hw /\ str' = hw /\ ok' = TRUE /\ UNCHANGED <<hw, hwmode>>
+(* ---- reads ---- *)
+ReadFails(f) ==              \* f was not read; members read before the failure may show the hardware
+    /\ f # "none"
+    /\ mem' \in {g \in Fn : g[f] = mem[f] /\ \A k \in Members : g[k] \in {mem[k], hw[k]}}
+    /\ AnyFlags /\ StrPost /\ ok' = FALSE
+    /\ UNCHANGED hw
 
-ReadMember(m) ==             \* read <member> / read_<member>()
-    /\ mem' \in {f \in Fn : f[m] = hw[m] /\ Others(m, f, mem, hw)}
-    /\ str' = mem' /\ ok' = TRUE
-    /\ UNCHANGED <<hw, hwmode>>
+ReadStruct(f) ==             \* read <struct> / read_<struct>()
+    /\ IF f # "none" THEN ReadFails(f)
+       ELSE mem' = hw /\ str' = hw /\ AllClear /\ ok' = TRUE /\ UNCHANGED hw
+    /\ Frame
 
-AssignMember(m, v) ==        \* driver: self.<member> = v   (cache only)
+ReadMember(m, f) ==          \* read <member> / read_<member>()
+    /\ \/ ReadFails(f)
+       \/ /\ f # m
+          /\ mem' \in {g \in Fn : g[m] = hw[m] /\ Others(m, g, mem, hw)}
+          /\ Shrink({m}) /\ StrPost /\ ok' = TRUE
+          /\ UNCHANGED hw
+    /\ Frame
+
+(* ---- driver updates of the cache ---- *)
+AssignMember(m, v) ==        \* driver: self.<member> = v
     /\ mem' = [mem EXCEPT ![m] = v]
-    /\ str' = mem' /\ ok' = TRUE
-    /\ UNCHANGED <<hw, hwmode>>
+    /\ Shrink({m}) /\ StrPost /\ ok' = TRUE
+    /\ UNCHANGED hw /\ Frame
 
-AssignStruct(v) ==           \* driver: self.<struct> = v   (cache only)
-    /\ mem' = v /\ str' = v /\ ok' = TRUE /\ UNCHANGED <<hw, hwmode>>
+AssignStruct(v) ==           \* driver: self.<struct> = v
+    /\ mem' = v /\ str' = v /\ AllClear /\ ok' = TRUE /\ UNCHANGED hw /\ Frame
 
-SNext == \/ \E v \in [Members -> Vals] : WriteStruct(v) \/ AssignStruct(v)
-         \/ \E m \in Members, v \in Vals : WriteMember(m, v) \/ AssignMember(m, v)
-         \/ ReadStruct
-         \/ \E m \in Members : ReadMember(m)
+SNext == \/ \E v \in [Members -> Vals], f \in Faults : WriteStruct(v, f)
+         \/ \E v \in [Members -> Vals] : AssignStruct(v)
+         \/ \E m \in Members, v \in Vals, f \in Faults : WriteMember(m, v, f)
+         \/ \E m \in Members, v \in Vals : AssignMember(m, v)
+         \/ \E f \in Faults : ReadStruct(f)
+         \/ \E m \in Members, f \in Faults : ReadMember(m, f)
 
 SSpec == SInit /\ [][SNext]_svars
 
 (* ---- properties ---- *)
-TypeOK == hw \in Fn /\ mem \in Fn /\ str \in Fn
-Agree == \A m \in Members : str[m] = mem[m]
-(* a value written through either path is what the hardware holds and the cache shows *)
+MCDepth4 == TLCGet("level") <= 4      \* state constraint of the quick design check
+TypeOK == hw \in Fn /\ mem \in Fn /\ str \in Fn /\ merr \subseteq Members /\ serr \in BOOLEAN
+(* without error flags the old formulation: struct = members, member by member *)
+Agree == (merr = {} /\ ~serr) => \A m \in Members : str[m] = mem[m]
+(* an accepted member write is what the hardware holds and what member and struct show *)
 WriteLands == [][\A m \in Members, v \in Vals :
-                   (WriteMember(m, v) /\ ok') => (hw'[m] = Store(v) /\ mem'[m] = hw'[m] /\ str'[m] = hw'[m])]_svars
+                   (WriteMember(m, v, "none") /\ ok') =>
+                      (hw'[m] = Store(v) /\ mem'[m] = hw'[m] /\ m \notin merr' /\ (~serr' => str'[m] = hw'[m]))]_svars
 (* a refused value never reaches the hardware *)
 RefusedNotStored == [][\A m \in Members : hw'[m] # hw[m] => hw'[m] <= HwMax]_svars
-(* a complete read makes cache and hardware equal *)
-ReadShowsHw == [][ReadStruct => (mem' = hw /\ str' = hw)]_svars
+(* a complete read makes cache and hardware equal and removes all errors *)
+ReadShowsHw == [][ReadStruct("none") => (mem' = hw /\ str' = hw /\ merr' = {} /\ ~serr')]_svars
 (* only writes touch the hardware *)
-CacheOpsKeepHw == [][(ReadStruct \/ (\E m \in Members : ReadMember(m))
+CacheOpsKeepHw == [][((\E f \in Faults : ReadStruct(f)) \/ (\E m \in Members, f \in Faults : ReadMember(m, f))
                       \/ (\E m \in Members, v \in Vals : AssignMember(m, v))
                       \/ (\E v \in [Members -> Vals] : AssignStruct(v))) => hw' = hw]_svars
+(* a failed operation never makes the hardware differ from what was asked or was there *)
+FailedWriteOnlyAsked == [][\A v \in [Members -> Vals], f \in Faults :
+                             (WriteStruct(v, f) /\ ~ok') => \A m \in Members : hw'[m] \in {hw[m], Store(v[m])}]_svars
 =============================================================================
